@@ -223,6 +223,9 @@ func classify(r *ExecResult) string {
 	switch {
 	case r.TimedOut:
 		return "timeout"
+	case r.Report != nil && (r.Report.Term == "resource_limit" || r.Report.Term == "arena_exhausted"):
+		// the simulated heap ran out of mappings / memory: says nothing about the program
+		return "resource-limit"
 	case r.Report != nil && len(r.Report.Viol) > 0 && r.Report.Viol[0].Inv == "L5":
 		return "trap"
 	case r.Signal != "":
